@@ -144,7 +144,11 @@ def gen_doctest(rng):
             out, exc = repl_output([l for l in src], ns)
         ps1 = pad + '>>> ' + src[0]
         if directive:
-            ps1 += '  # doctest: +' + directive
+            # one option, or several: separated by commas or - equally valid in the standard module - by blanks; the added ones
+            # are on by default in xdoctest and do not change what the standard module accepts here
+            extra = rng.choice(['', '', '', ' +ELLIPSIS', ', +ELLIPSIS', ' +NORMALIZE_WHITESPACE', ',+NORMALIZE_WHITESPACE', '  +ELLIPSIS  +NORMALIZE_WHITESPACE'])
+            lead = rng.choice(['', '', '+ELLIPSIS ', '+NORMALIZE_WHITESPACE, ']) if directive in ('SKIP', 'IGNORE_EXCEPTION_DETAIL') else ''
+            ps1 += '  # doctest: ' + lead + '+' + directive + (extra if directive != 'NORMALIZE_WHITESPACE' or 'ELLIPSIS' in extra or not extra else '')
         block = [ps1] + [pad + '... ' + l for l in src[1:]]
         if len(src) > 1 and rng.random() < 0.3 and not src[-1].startswith(' ') and "'''" not in src[-1]:
             pass
@@ -206,6 +210,8 @@ CLASS_DOCS = {
     'F6g': ">>> print('<BLANKLINE>')\n<BLANKLINE>\n",
     'F6h': ">>> print('progress 10%\\rdone')  # doctest: +ELLIPSIS\nprogress...\n",
     'F6i': ">>> print('.\\x1b[0ma')  # doctest: +ELLIPSIS\n.\x1b[0m...\n",
+    'F6j': ">>> for i in range(2): i\n0\n1\n",
+    'F6k': ">>> for i in range(2):\n... # a comment at column 0\n...     print(i)\n0\n1\n",
 }
 
 
@@ -458,7 +464,7 @@ def run(ctx):
     ctx.sample({'doctest': docs[1]})
     ctx.sample({'doctest': docs[-1]})
     ctx.assumptions += ['Guard20: the generator avoids the recorded classes F6 (an expression example that both prints and has a non-None value), F6b (expected SyntaxError at compile time), '
-                        'F6c (expected SystemExit), F6d (True accepted for 1), F6e (adjacent examples of different indentation), F6f (prefix letter in front of a wildcard), F6g (output holds the text <BLANKLINE>), F6h (carriage returns), F6i (colour codes next to dots); they are re-evaluated separately every run',
+                        'F6c (expected SystemExit), F6d (True accepted for 1), F6e (adjacent examples of different indentation), F6f (prefix letter in front of a wildcard), F6g (output holds the text <BLANKLINE>), F6h (carriage returns), F6i (colour codes next to dots), F6j (one-line compound statements that echo), F6k (comment-only continuation line at column 0); they are re-evaluated separately every run',
                         'the standard library doctest module of CPython 3.12 is the oracle']
 
 
